@@ -354,19 +354,37 @@ def outliers(ctx):
         if cm is not None and cm[0] == "<" and cm[2] is m:
             ok_thr = True
             s = cm[1]
-            col = None
-            for x in subterms(s):
-                ab = m_arrcall(x, "abs") if x.op == "call" else None
+
+            def abs_inner(t, depth=0):
+                """the X of a two-sided distance: |X|, |X| / scale, |X / scale|, (|X| / scale if scale else 0)"""
+                t = strip_wrappers(t)
+                if depth > 6:
+                    return None
+                if t.op in ("ifexp", "phi"):
+                    arms = [abs_inner(a, depth + 1) for a in t.args[1:] if not (a.op == "const")]
+                    return arms[0] if len(arms) == 1 else (arms[0] if arms and all(a is arms[0] for a in arms) else None)
+                ab = m_arrcall(t, "abs", "absolute", "fabs") if t.op == "call" else None
+                if ab is None and t.op == "call" and func_name(t) == "builtins.abs":
+                    ab = call_parts(t)[1]
                 if ab is not None:
-                    d = m_binop(strip_wrappers(ab[0]), "-")
-                    if d is not None:
-                        med = m_arrcall(strip_wrappers(d[1]), "median")
-                        c0 = strip_wrappers(d[0])
-                        if med is not None and strip_wrappers(med[0]) is c0 and c0.op == "getitem" and \
-                                c0.args[0] is data and c0.args[1].op == "tuple" and c0.args[1].args[1] is obs:
-                            ok_dev = True
-    ctx.ob("PAIR-4", "reject_outliers: deviations are measured from the median of the tested column itself", ok_dev,
-           "", fi)
+                    inner = strip_wrappers(ab[0])
+                    dv = m_binop(inner, "/")
+                    return strip_wrappers(dv[0]) if dv is not None else inner
+                dv = m_binop(t, "/")
+                if dv is not None:
+                    return abs_inner(dv[0], depth + 1)
+                return None
+
+            X = abs_inner(s)
+            d = m_binop(X, "-") if X is not None else None
+            if d is not None:
+                med = m_arrcall(strip_wrappers(d[1]), "median")
+                c0 = strip_wrappers(d[0])
+                if med is not None and strip_wrappers(med[0]) is c0 and c0.op == "getitem" and \
+                        c0.args[0] is data and c0.args[1].op == "tuple" and c0.args[1].args[1] is obs:
+                    ok_dev = True
+    ctx.ob("PAIR-4", "reject_outliers: the tested quantity is the absolute (two-sided) deviation of the column "
+           "from its own median", ok_dev, "" if ok_dev else "the value compared with m is not |col - median(col)| / scale", fi)
     ctx.ob("PAIR-4", "reject_outliers: rows are kept when the scaled deviation is below m", ok_thr, "", fi)
     # scale = median of the deviations
     ok_scale = any(x.op == "call" and m_arrcall(x, "median") is not None and any(
